@@ -276,14 +276,19 @@ package hessian
 //@   pure
 //@   ensures [C06:rawvalue-total] true
 
+//@ func derefMapPtr
+//@   pure
+//@   defines R.derefMapPtr(v)
+//@   ensures [C04,C06:map-pointer-opened] result == ite(R.kind(v) == K.Ptr && !R.isNil(v) && R.kind(R.elem(v)) == K.Map, R.elem(v), v)
+
 //@ func EnsureInterface
 //@   pure
 //@   ensures [C06:ensure-interface-err] result1 == err && (err != nil ==> result0 == in)
 //@   ensures [C06:non-carrier-unchanged] err == nil && !istype(in, "reflect.Value") && !istype(in, "*_refHolder") ==> result0 == in
-//@   let u1 = ite(istype(in, "reflect.Value"), R.iface(i.rv(in)), in)
+//@   let u1 = ite(istype(in, "reflect.Value"), R.iface(R.derefMapPtr(i.rv(in))), in)
 //@   ensures [C06:value-unwrapped]  err == nil && !istype(u1, "*_refHolder") ==> result0 == u1
 //@   ensures [C06:holder-unwrapped]        err == nil && !istype(in, "reflect.Value") && istype(in, "*_refHolder") ==> result0 == R.iface(holdervalue(in))
-//@   ensures [C06:wrapped-holder-unwrapped] err == nil && istype(in, "reflect.Value") && istype(R.iface(i.rv(in)), "*_refHolder") ==> result0 == R.iface(holdervalue(R.iface(i.rv(in))))
+//@   ensures [C06:wrapped-holder-unwrapped] err == nil && istype(in, "reflect.Value") && istype(R.iface(R.derefMapPtr(i.rv(in))), "*_refHolder") ==> result0 == R.iface(holdervalue(R.iface(R.derefMapPtr(i.rv(in)))))
 
 //@ func PackPtr
 //@   pure
